@@ -1,6 +1,6 @@
 """C17 — Vouch's own concurrency never corrupts its state (spec/Concurrency.tla).
 
-Two halves (see the header of Concurrency.tla and docs/C17.md):
+Three parts (see the header of Concurrency.tla and docs/C17.md):
   (a) linearizability: TLC generates the overlap schedules (<= 3 overlapping operations per group); the drivers
       run every schedule many times on the real services with goroutines behind start gates and record call
       histories (Inv/Ret with results); TLC validates every distinct history by searching a linearization
@@ -11,7 +11,17 @@ Two halves (see the header of Concurrency.tla and docs/C17.md):
       drivers are BUILT WITH -race and run under GORACE="halt_on_error=0 log_path=..."; a report whose two access
       sites are in Vouch's code becomes the trace event Race(var, sites), which no action of the specification
       allows.  That half of C17 is decided by the Go race detector during the model-generated schedules.
+  (c) aliasing (group syncduty): structures that are shared between jobs / handlers of DIFFERENT components without a
+      lock (the sync committee period's map of committee positions: every slot's duty, every data record, the head
+      event handler) are objects of the specification with their holders; invariant SharedImmutable ("shared => never
+      written after publication") over a WIDE environment (members without an account, failing / zero / partial
+      answers of every request, per job); classes of change (a component starts to write what it was handed, for an
+      edge input only) must be rejected by TLC, and accepted with a copy per duty / with the narrow environment (the
+      two reasons why a check can be blind to them).  The binding runs the REAL controller scheduling path + the real
+      messenger + the real aggregator + the head event handler under -race over TLC's enumeration of (environment,
+      overlap); a panic of Vouch's code is the event Crash, a call or goroutine that never finishes the event Hung.
 """
+import random
 import concurrent.futures
 import glob
 import json
@@ -28,7 +38,9 @@ GROUPS = ["wallet", "blockrelay", "messenger", "controller", "cache", "validator
           # the REST (MEV-boost) surface of the block relay, and two more pairs of the re-derived pair table
           "registrar", "bids", "restcfg", "exechead", "syncagg", "bestvotes", "bidstrategy",
           # the dirk account manager: second and later refreshes of one instance || account queries
-          "dirk"]
+          "dirk",
+          # the sync committee duty pipeline through the controller's scheduling path (aliased structures)
+          "syncduty"]
 # (package of the driver, test binary name); the controller driver lives inside the controller package
 # because it reuses the C03 controller harness (package-internal)
 DRIVERS = {
@@ -46,14 +58,34 @@ PINNED_VIOLATES = {"wallet": True, "blockrelay": True, "messenger": True, "contr
 # renderings of a CLASS of change that must violate Disciplined (non-vacuity of the entries of the Guard table
 # that no defect of the pinned tree exercises): cfg -> what it renders
 MUST_VIOLATE = {"MC_Concurrency_inplace_registrar.cfg":
-                "the registration round alters the published controlled-validators map in place",
+                ("the registration round alters the published controlled-validators map in place", "Disciplined"),
                 "MC_Concurrency_reuse_dirk.cfg":
-                "the dirk refresh builds its key list in the backing array of the published list: histories of three "
-                "calls on one instance (the second refresh overlaps a query)"}
+                ("the dirk refresh builds its key list in the backing array of the published list: histories of three "
+                 "calls on one instance (the second refresh overlaps a query)", "Disciplined"),
+                # group syncduty, classes of change on ALIASED structures (each only for an edge input of the wide
+                # environment): a component writes an object it was handed
+                "MC_Concurrency_alias_message_indices.cfg":
+                ("the message job deletes the members without an account from its duty's map of committee positions - "
+                 "the period's map, which every other duty and every data record aliases", "SharedImmutable"),
+                "MC_Concurrency_alias_prepare_indices.cfg":
+                ("the prepare job writes its duty's map of committee positions", "SharedImmutable"),
+                "MC_Concurrency_alias_verify_indices.cfg":
+                ("the head event's verification writes the map in the data record when the head block misses members",
+                 "SharedImmutable"),
+                "MC_Concurrency_alias_schedule_accounts.cfg":
+                ("a slot's scheduling goroutine writes the period's accounts map (members without an account)",
+                 "SharedImmutable")}
 # ... and the control of that control: the same rendering is right as long as an instance sees ONE refresh (what
 # a check that starts every schedule on a fresh instance looks at) - must HOLD
 MUST_HOLD = {"MC_Concurrency_reuse_dirk_fresh.cfg":
-             "the Reuse rendering with at most one refresh overlapping anything on a fresh instance"}
+             "the Reuse rendering with at most one refresh overlapping anything on a fresh instance",
+             # the two reasons why a check can be blind to the class message-indices
+             "MC_Concurrency_alias_message_indices_perslot.cfg":
+             "the message job writes its duty's map, every duty having a COPY of its own (what driving the messenger "
+             "apart from the controller looks at)",
+             "MC_Concurrency_alias_message_indices_narrow.cfg":
+             "the message job writes its duty's map for members without an account, in the NARROW environment in "
+             "which every member has one"}
 
 # Guard table keys -> how an access site is recognised in the source (file suffix, regex on the source line).
 # The names are the variables of Concurrency!Guard; anything else racing inside Vouch is reported under the
@@ -91,6 +123,14 @@ SITES = [
     ("controller.pendingAttestations", "services/controller/standard/", r"\bs\.pendingAttestations\b"),
     ("bestproposal.priorBlocksVotes", "strategies/beaconblockproposal/best/", r"\bs\.priorBlocksVotes\b"),
     ("builderbid.relayPubkeys", "strategies/builderbid/", r"\bs\.relayPubkeys\b"),
+    # group syncduty: objects without a lock (Guard = "(immutable)")
+    ("syncduty.messageIndices", "services/synccommitteemessenger/", r"[cC]ontributionIndices|ValidatorToCommitteeIndex|validatorToCommitteeIndex"),
+    ("syncduty.messageIndices", "services/controller/standard/", r"ValidatorToCommitteeIndex|\bmessageIndices\b|\bcommitteeIndices\b|ValidatorSyncCommitteeIndices"),
+    ("syncduty.accountsByIndex", "services/controller/standard/synccommitteemessenger.go", r"\baccounts\b"),
+    ("syncduty.dutyAccounts", "services/synccommitteemessenger/service.go", r"\bd\.accounts\b"),
+    ("syncduty.dutyAccounts", "services/synccommitteeaggregator/standard/", r"duty\.Accounts\b"),
+    ("syncduty.selectionProofs", "services/synccommitteemessenger/service.go", r"\bd\.aggregatorSubcommittees\b"),
+    ("syncduty.selectionProofs", "services/synccommitteeaggregator/standard/", r"duty\.SelectionProofs\b"),
 ]
 
 
@@ -100,6 +140,8 @@ def groups():
 
 
 def driver_of(g):
+    if g == "syncduty":
+        return "controller"
     return g if g in ("controller", "dirk") else "ext"
 
 
@@ -153,14 +195,21 @@ def run_group(g, schedules, reps, tag):
         rows += [r for r in part if r.get("ev") != "Done"]
         if done and (p.returncode == 0 or "race detected during execution of test" in p.stdout):
             break
-        # the process died: a fatal runtime error (concurrent map access) is an observation, anything else is broken
+        # the process died: a fatal runtime error (concurrent map access) or a panic of Vouch's code on a goroutine of
+        # its own is an observation, anything else is broken
         m = re.search(r"^fatal error: (concurrent map [^\n]*)", p.stdout, re.M)
-        if not m or not part:
+        pm = re.search(r"^panic: ([^\n]*)", p.stdout, re.M)
+        frames = [f for f in re.findall(r"^(github\.com/attestantio/vouch/(?!verif)[^\s(]+)", p.stdout, re.M)
+                  if not re.search(r"\.\(?\*?c\d\d[A-Z]|TestVerif", f)]
+        if not part or not (m or (pm and frames)):
             raise vf.Broken("driver of group %s failed (rc=%d):\n%s" % (g, p.returncode, p.stdout[-5000:]))
         last = [r for r in part if r.get("sc")][-1]
-        frames = re.findall(r"^(github\.com/attestantio/vouch/(?!verif)[^\s(]+)", p.stdout, re.M)
-        rows.append({"sc": last["sc"], "h": last.get("h"), "ev": "Fatal", "g": g, "text": m.group(1),
-                     "site": frames[0] if frames else ""})
+        if m:
+            rows.append({"sc": last["sc"], "h": last.get("h"), "ev": "Fatal", "g": g, "text": m.group(1),
+                         "site": frames[0] if frames else ""})
+        else:
+            rows.append({"sc": last["sc"], "h": last.get("h"), "ev": "Crash", "g": g, "where": "goroutine",
+                         "text": pm.group(1)[:200], "site": frames[0]})
         ids = [s["sc"] for s in remaining]
         remaining = remaining[ids.index(last["sc"]) + 1:]
         if rounds > 12:
@@ -296,17 +345,76 @@ def sig_of_race(r):
     return {"kind": "race", "var": r.get("var")}
 
 
+def sync_features(s):
+    """The choices of the environment and of the overlap that a schedule of group syncduty is made of."""
+    acct = [op for op in s["pre"] if op["op"] == "Env"][0]["acct"]
+    f = [("acct", tuple(acct)), ("late1", not any(op["op"] == "Msg" for op in s["pre"]))]
+    for op in s["par"]:
+        key = "%s%s%s" % (op["op"], op.get("s", ""), "n%d" % op["node"] if "node" in op else "")
+        vals = sorted((k, v) for k, v in op.items() if k not in ("op", "s", "node"))
+        f.append((key, tuple(vals)))
+        for k, v in vals:
+            f.append((key + "." + k, v))
+    return f
+
+
+def select_syncduty(scs, tier):
+    """TLC enumerates every (environment, overlap) of group syncduty in both release orders.  One order of each is run
+    (seeded choice); the thorough tier runs them all, the quick tier a seeded subset that covers, for every shape of
+    overlap (which jobs / events overlap), every PAIR of choices (accounts x each answer, answer x answer, ...)."""
+    rnd = random.Random(vf.seed())
+    scs = sorted(scs, key=lambda s: json.dumps(s, sort_keys=True))
+    rnd.shuffle(scs)
+    unordered = {}
+    for s in scs:
+        key = (json.dumps(s["pre"], sort_keys=True), tuple(sorted(json.dumps(op, sort_keys=True) for op in s["par"])))
+        unordered.setdefault(key, s)
+    scs = list(unordered.values())
+    if tier != "quick":
+        return scs
+    shapes = {}
+    for s in scs:
+        shape = tuple(sorted((op["op"], op.get("s", 0), op.get("node", 0)) for op in s["par"]))
+        shapes.setdefault(shape, []).append(s)
+    chosen = []
+    for shape in sorted(shapes):
+        cands = [(s, sync_features(s)) for s in shapes[shape]]
+        need = set()
+        for _, f in cands:
+            dims = [x for x in f if "." in x[0] or x[0] in ("acct", "late1")]
+            need.update((a, b) for i, a in enumerate(dims) for b in dims[i + 1:])
+        while need and cands:
+            best, bestcov = None, -1
+            for i, (s_, f) in enumerate(cands):
+                dims = [x for x in f if "." in x[0] or x[0] in ("acct", "late1")]
+                cov = sum(1 for j, a in enumerate(dims) for b in dims[j + 1:] if (a, b) in need)
+                if cov > bestcov:
+                    best, bestcov = i, cov
+            if bestcov <= 0:
+                break
+            s_, f = cands.pop(best)
+            dims = [x for x in f if "." in x[0] or x[0] in ("acct", "late1")]
+            need.difference_update((a, b) for j, a in enumerate(dims) for b in dims[j + 1:])
+            chosen.append(s_)
+    return chosen
+
+
 def schedules(tier):
     hs = vf.tlc_scenarios(PID, "Scen_Concurrency", "Scen_Concurrency.cfg", exhaustive=True, timeout=600, workers=4)
     scs = [h[0] for h in hs if isinstance(h, list) and h and h[0].get("ev") == "Schedule"]
+    sync = select_syncduty([s for s in scs if s["g"] == "syncduty"], tier)
+    scs = [s for s in scs if s["g"] != "syncduty"]
     scs.sort(key=lambda s: (s["g"], len(s["par"]), json.dumps(s, sort_keys=True)))
+    sync.sort(key=lambda s: (len(s["par"]), json.dumps(s, sort_keys=True)))
+    scs += sync          # last: the numbering of the other groups' schedules does not depend on the selection
     return [{"sc": i + 1, "g": s["g"], "pre": s["pre"], "par": s["par"], "hold": s.get("hold", "free")} for i, s in enumerate(scs)]
 
 
 def reps_for(g, tier):
-    quick = {"wallet": 40, "controller": 6, "bidstrategy": 6, "dirk": 10}
+    # syncduty: repetition r makes interface r % 4 slow (none, head root, head block, signers): a multiple of 4
+    quick = {"wallet": 40, "controller": 6, "bidstrategy": 6, "dirk": 10, "syncduty": 4}
     thorough = {"wallet": 400, "blockrelay": 40, "controller": 40, "registrar": 60, "restcfg": 40, "bidstrategy": 40,
-                "dirk": 100}
+                "dirk": 100, "syncduty": 8}
     if tier == "quick":
         return quick.get(g, 12)
     return thorough.get(g, 200)
@@ -335,8 +443,19 @@ def check(v, scs, tier, gs, confirm=True):
     rows, harness = postprocess(raw)
     if harness:
         raise vf.Broken("the race detector reports a race between harness code and Vouch code (fix the harness): %s" % harness[:3])
+    # a call that never returned (the runner gave up after 8 s) is the event Hung
+    rows = [dict(r, ev="Hung", text="a call did not return within 8 s") if r.get("ev") == "Stuck" else r for r in rows]
+    # coverage information of group syncduty (not part of a history): how the data records alias the period's map
+    alias = [r for r in rows if r.get("ev") == "Alias"]
+    rows = [r for r in rows if r.get("ev") != "Alias"]
+    if alias:
+        v.coverage["syncduty_histories_with_records_aliasing_one_map"] = \
+            v.coverage.get("syncduty_histories_with_records_aliasing_one_map", 0) + \
+            sum(1 for r in alias if r.get("records", 0) >= 2 and r.get("objects") == 1)
+        v.coverage["syncduty_histories_with_a_member_without_account"] = \
+            v.coverage.get("syncduty_histories_with_a_member_without_account", 0) + sum(1 for r in alias if r.get("accountless", 0) > 0)
     hist = histories(rows)
-    stuck = [k for k, rs in hist if any(r.get("ev") == "Stuck" for r in rs)]
+    stuck = [k for k, rs in hist if any(r.get("ev") == "Hung" for r in rs)]
     v.coverage["evaluations"] += len(hist)
     v.coverage["histories_with_calls_that_never_returned"] = len(stuck)
     # distinct histories (most repetitions of a schedule produce the same history)
@@ -399,11 +518,11 @@ def check(v, scs, tier, gs, confirm=True):
             break
     v.coverage["traces_validated_against_impl"] += accepted
 
-    # 2. race reports / fatal errors: one report per (group, variable)
-    events = [r for r in rows if r.get("ev") in ("Race", "Fatal", "LibraryRace")]
+    # 2. race reports / fatal errors / panics / hangs: one report per (group, variable or kind of event)
+    events = [r for r in rows if r.get("ev") in ("Race", "Fatal", "LibraryRace", "Crash", "Hung")]
     groups_seen = {}
     for r in events:
-        key = (r.get("g"), r.get("var") or r.get("ev"))
+        key = (r.get("g") or by_id.get(r.get("sc"), {}).get("g"), r.get("var") or r.get("ev"))
         groups_seen.setdefault(key, []).append(r)
     v.coverage["race_reports"] = {"%s/%s" % k: len(x) for k, x in sorted(groups_seen.items())}
     n = failures
@@ -423,6 +542,10 @@ def check(v, scs, tier, gs, confirm=True):
             again = [s for s in scs if s["g"] == key[0]]
             rr, _ = postprocess(run_all(v, again, tier, "confirm", [key[0]]))
             reproduced = any(r.get("ev") == "Race" and r.get("var") == ev.get("var") for r in rr)
+        elif confirm and ev["ev"] in ("Crash", "Hung"):
+            # reproduce: the schedule alone, in a fresh process; the same kind of event must show up again
+            rr, _ = postprocess(run_all(v, [sc], tier, "confirm", [key[0]]))
+            reproduced = any(r.get("ev") == ev["ev"] or (ev["ev"] == "Hung" and r.get("ev") == "Stuck") for r in rr)
         if not reproduced:
             v.unreproduced.append("race on %s in group %s did not show up again" % (ev.get("var"), key[0]))
             vf.log("race on %s in group %s did not show up again: %s" % (ev.get("var"), key[0], groups_seen[key][0].get("sites")))
@@ -432,7 +555,8 @@ def check(v, scs, tier, gs, confirm=True):
         note = "%s\n%s %s in group %s\nsites:\n%s" % (res["why"], ev["ev"], ev.get("var") or ev.get("text"), key[0], "\n".join(sites))
         d = vf.save_replay(PID, n, sc, hrows + [ev], note)
         sig = {"kind": ev["ev"].lower(), "var": ev.get("var") or ev.get("text")}
-        v.report(sig, "%s on %s (group %s): %s" % (ev["ev"], ev.get("var") or ev.get("text"), key[0], "; ".join(sites)[:400]), d)
+        v.report(sig, "%s on %s (group %s): %s" % (ev["ev"], ev.get("var") or ev.get("text"), key[0],
+                                                   ("; ".join(sites) or ev.get("site") or "")[:400]), d)
     return rows
 
 
@@ -452,7 +576,7 @@ def run(tier):
     # non-vacuity of the lock discipline: the pinned rendering of the suspected defects must violate Disciplined, and so
     # must the renderings of a CLASS of change (in-place registration round, re-used key list).  Small models,
     # started now, side by side, next to the exhaustive run
-    small = concurrent.futures.ThreadPoolExecutor(max_workers=5)
+    small = concurrent.futures.ThreadPoolExecutor(max_workers=6)
     futs, must = {}, {}
     if full:
         futs = {g: small.submit(vf.tlc, PID, "mc-pinned-" + g, "Concurrency", "MC_Concurrency_pinned_%s.cfg" % g, workers=1, timeout=600)
@@ -461,7 +585,13 @@ def run(tier):
                 for cfg in list(MUST_VIOLATE) + list(MUST_HOLD)}
     # the exhaustive run is part of every run (also of development runs restricted with VERIF_C17_GROUPS):
     # evidence.states / transitions are always those of THIS run
+    sync_mc = None
+    if "syncduty" in gs:
+        # group syncduty over the whole alphabet of its environment, next to the other groups' run
+        sync_mc = small.submit(vf.tlc_exhaustive, PID, "Concurrency", "MC_Concurrency_syncduty.cfg", workers=4)
     v.add_mc(vf.tlc_exhaustive(PID, "Concurrency", "MC_Concurrency.cfg"))
+    if sync_mc is not None:
+        v.add_mc(sync_mc.result())
     if full:
         if tier == "thorough":
             v.add_mc(vf.tlc_exhaustive(PID, "Concurrency", "MC_Concurrency_big.cfg", timeout=1500))
@@ -474,11 +604,11 @@ def run(tier):
                                         "discipline model is vacuous" % (g, r["kind"], r["violated"]))
                 elif not r["ok"]:
                     raise vf.Broken("the pinned rendering of group %s violates %s" % (g, r["violated"]))
-            for cfg, what in MUST_VIOLATE.items():
+            for cfg, (what, inv) in MUST_VIOLATE.items():
                 r = must[cfg].result()
-                if not (r["kind"] == "invariant" and r["violated"] == "Disciplined"):
-                    raise vf.Broken("%s (%s) does not violate Disciplined (%s %s): the lock discipline model is vacuous"
-                                    % (cfg, what, r["kind"], r["violated"]))
+                if not (r["kind"] == "invariant" and r["violated"] == inv):
+                    raise vf.Broken("%s (%s) does not violate %s (%s %s): the lock discipline / aliasing model is vacuous"
+                                    % (cfg, what, inv, r["kind"], r["violated"]))
             for cfg, what in MUST_HOLD.items():
                 r = must[cfg].result()
                 if not r["ok"]:
